@@ -7,7 +7,7 @@ Open Scope string_scope.
 Definition prof_of (n : N) : profile := match n with 0%N => Dev | _ => Release end.
 
 Definition hkind_of (n : N) : hkind :=
-  match n with 0%N => HDummy | 1%N => HTagH | 2%N => HHdrTagH | 3%N => HBootH | _ => HBasicH end.
+  match n with 0%N => HDummy | 1%N => HTagH | 2%N => HHdrTagH | 3%N => HBootH | 5%N => HUser12 | _ => HBasicH end.
 
 (* c14 <profile> <hkind> <addr mod 8> <bytes>: DynSizedStructure::<H>::ref_from_slice *)
 Definition run_c14 (p : profile) (h : hkind) (a : N) (bs : list byte) : list string :=
